@@ -103,6 +103,15 @@ func init() {
 			r.Try(func() { ruleWatcher(w, r, "R13.4") })
 			r.Rule("R13.5", 5, "setInstance is the last guard for resolutions in flight when Close ran: an instance that arrives at a closed scope is disposed (or refused) and ErrScopeDisposed is returned")
 			r.Try(func() { ruleTracking(w, r, "R13.5", "", "") })
+			r.Rule("R13.8", 1, "an operation that overlaps Close never hangs: the lock-order graph over the mutex fields has no cycle (child registration and child unlinking take the tracking locks in one order)")
+			r.Try(func() {
+				la2 := NewLockAnalysis(w)
+				reexport(w, r, "R13.8", func(sub *Report) { checkLockHygiene(w, sub, la2) }, "R09.2i")
+			})
+			r.Rule("R13.7", 8, "the disposed error stays classifiable through every wrapper: every error struct with a cause field unwraps to it")
+			r.Try(func() { ruleErrChainUnwrap(w, r, "R13.7") })
+			r.Rule("R13.3n", 2, "the closed marker the insertion sites re-check (table == nil) is established on every path of Close past the gate")
+			r.Try(func() { ruleClosedMarkerOnAllPaths(w, r, "R13.3n") })
 			r.Rule("R13.6", 2, "every success exit of setInstance's Scoped and Transient paths has found the scope open: an instance of any kind that arrives at a closed scope is refused with ErrScopeDisposed")
 			r.Try(func() { ruleSetInstanceRefusesClosed(w, r, "R13.6") })
 		})
